@@ -19,7 +19,7 @@ WHAT = "same history => identical handles, results, join orders, event streams a
 def other_bins():
     """(binary, argv-tail) of other single-threaded domains whose harness exists (joins, save/load)."""
     cmds = []
-    for b, tails in (("h_join", [["gen", "{seed}", "60", "30"]]), ("h_saveload", [["gen", "{seed}", "150", "30"]]), ("h_changeset", [["gen", "{seed}", "200", "30"]])):
+    for b, tails in (("h_join_h3", [["gen", "{seed}", "60", "small"], ["gen", "{seed}", "30", "mix"]]), ("h_saveload", [["gen", "{seed}", "150", "30"]]), ("h_changeset", [["gen", "{seed}", "200", "30"]])):
         registered = open(os.path.join(vlib.VERIF, "harness", "BINS")).read().split()
         if b in registered:
             for t in tails:
